@@ -18,6 +18,43 @@ PROPS = {
         note="Trusted: Python's str.format semantics; callee resolution through import aliases (sites that build the "
              "exception class dynamically would be missed; none exist). Codes must fold to a finite constant set, otherwise "
              "the check stops with ANALYSIS-ERROR rather than pass."),
+
+    "C11": dict(
+        claimed=True, design="§2 C11",
+        technique="finite decision tables of the four promotion functions evaluated over all 9x9x(type_to_check)x(return_type) cells + docs list-table comparison + CFG must-pass-through of type checks + purity rule",
+        text="Decides over the whole finite type domain: the implicit-promotion table equals the documented table; check_* agrees with "
+             "the promotion that computes the result for every cell and every (type_to_check, return_type) pair declared by an operator "
+             "class; commutative operators get order-independent result types; accepted iff a documented common type admitted by the "
+             "operator exists. Also: the generic Binary/Unary validation methods reach a promotion function on every path, and the "
+             "promotion functions are pure. Exhaustive evaluation of extracted tables is the right level for a finite domain.",
+        note="Each operator's declared type_to_check is taken as given (no in-repo oracle). The decision-table evaluator models a "
+             "restricted language (fails closed on anything else). Operators overriding validation with their own type rules are an "
+             "explicit reasoned exemption table."),
+    "C09": dict(
+        claimed=True, design="§3 C09",
+        technique="decision table of Cast.check_without_mask vs docs list-tables; symbolic evaluation of the rename branch and of the SQL cast dispatch over all type pairs; CFG must-pass-through",
+        text="Decides the accept/reject table of cast (code vs the two documented tables, 8x8), that every validation path performs the "
+             "check, the documented measure-renaming rule, and that representation-changing conversions are routed to existing SQL "
+             "macros rather than a generic CAST. Does not decide per-value conversion results (DuckDB semantics).",
+        note="docs/data_types.rst is the oracle. Known findings: 4 table cells and 2 generic-CAST pairs (see known_findings.txt)."),
+    "C30": dict(
+        claimed=True, design="§3 C30",
+        technique="decision table of set_decimal_config over ({unset} U [-5..45])^2 settings incl. call sequences; docs constant comparison; call-graph search for memoised dependants of the decimal type",
+        text="Decides the validation half of the property exhaustively: which settings are accepted, that rejection is the documented "
+             "configuration error naming the offending variable, that the published (width, scale) is the documented effective value, "
+             "that outcomes do not depend on earlier settings, and that nothing derived from the decimal type is memoised or hard-coded. "
+             "Does not decide rounding/arithmetics of stored values (DuckDB).",
+        note="os.getenv modelled as a mapping lookup; DuckDB rule s <= w <= 38 is an external fact encoded in the rule. Known finding: "
+             "scale > width accepted."),
+    "C27": dict(
+        claimed=True, design="§3 C27",
+        technique="table extraction (code dict literals, docs list-tables, installed pysdmx enum source) + CFG dominance of guarded lookups + def-use provenance of the per-component fields",
+        text="Decides the mapping table in full: VTL_DTYPES_MAPPING / VTL_ROLE_MAPPING / nullability rule equal the documented tables, "
+             "every member of the installed pysdmx DataType and Role enums is mapped or rejected with InputValidationException (guard "
+             "dominates the lookup), every output component's four fields derive from the one SDMX component being converted, and "
+             "run/run_sdmx/semantic_analysis share that single un-memoised conversion.",
+        note="pysdmx enums are read from the installed package source. Structures of 1-5 components are covered because the conversion is "
+             "shown to be per-component."),
 }
 
 NA_REASONS = {
